@@ -317,6 +317,8 @@ func execOp(s *Sexp) string {
 		return execJRT(s)
 	case "desc":
 		return execDesc(s)
+	case "internsched":
+		return execInternSched(s)
 	case "sched":
 		return execSched(s)
 	case "desccalls":
